@@ -17,6 +17,10 @@ REPLAYS = os.path.join(VERIF, "replays")
 EVIDENCE = os.path.join(VERIF, "evidence")
 KNOWN = os.path.join(VERIF, "known_findings.json")
 TLC_WORKERS = int(os.environ.get("VERIF_TLC_WORKERS", "8"))
+# the repository under test; VERIF_REPO lets a snapshot run (vp run --with-repo) use its own copy
+REPO = os.environ.get("VERIF_REPO") or os.environ.get("VP_RUN_REPO") or "/repo"
+os.environ["VERIF_ROOT"] = VERIF       # the harness finds data/contents.json below it
+os.environ["VERIF_REPO"] = REPO
 
 
 class ToolError(Exception):
@@ -42,7 +46,14 @@ def log(msg):
 
 def build_harness():
     """(Re)build the harness against /repo's current working tree, hooks enabled."""
-    lock_src = "/repo/Cargo.lock"
+    lock_src = os.path.join(REPO, "Cargo.lock")
+    if REPO != "/repo":
+        # a snapshot run: point the path dependency of this copy of the harness at its own repository
+        ct = os.path.join(HARNESS_DIR, "Cargo.toml")
+        txt = open(ct).read()
+        new = re.sub(r'swift-mt-message = \{ path = "[^"]*" \}', 'swift-mt-message = { path = "%s" }' % REPO, txt)
+        if new != txt:
+            open(ct, "w").write(new)
     lock_dst = os.path.join(HARNESS_DIR, "Cargo.lock")
     if not os.path.exists(lock_dst) and os.path.exists(lock_src):
         import shutil
